@@ -81,6 +81,9 @@ func VerifH_C02_RootCarReaderNext() {
 			vAssert("clean-eof-only-at-boundary", consumed == len(file) || nullPad)
 			vCover("null-padding-eof", nullPad)
 			vCover("clean-eof", true)
+			// the reader stays usable after its end: another call reports the end again (no panic)
+			_, again := cr.Next()
+			vAssert("eof-is-sticky", again == io.EOF)
 			return
 		}
 		vCover("error-reported", true)
